@@ -303,17 +303,26 @@ package types
 //@   let oldLim  = len(V0) / 2 + 1
 //@   let setLim  = nvals(V1) / 2 + 1
 //@   let lenLim  = len(V1) / 2 + 1
+//@   let chainId0 = clientState.ChainId
+//@   let epoch0  = clientState.Epoch
+//@   let interval0 = clientState.BlockInteval
+//@   let period0 = clientState.TrustingPeriod
+//@   let contract0 = str(clientState.ContractAddress)
 //@   requires epoch:   clientState.Epoch != 0
 //@   requires room:    len(header.Extra) >=s 97
 //@   requires recents: recentsOk(tibc, c, number)
 //@   requires sane:    number <u 0x8000000000000000
 //@   ensures fails:    err != nil <==> isEpoch && (len(header.Extra) - 97) % 20 != 0
-//@   ensures latest:   err == nil ==> newCS == clientState && pack(newCS.Header) == pack(header)
+//@   alias newCS = clientState
+//@   mutates clientState
+//@   ensures latest:   err == nil ==> pack(newCS.Header) == pack(header)
 //@   ensures cons:     err == nil ==> cs.Timestamp == header.Time && cs.Number == header.Height && str(cs.Root) == str(header.Root)
 //@   ensures vals:     err == nil ==> newCS.Validators == V1
 //@   ensures pending:  err == nil ==> (isEpoch ==> pbdec_obj(ValidatorSet, 0, optstr(tibc[pk])) == parsedVals(str(header.Extra))) && (!isEpoch ==> tibc[pk] == old(tibc)[pk])
 //@   ensures window:   err == nil ==> (forall rn: u64, h: u64 :: h >u number - setLim ==> tibc[recentSigner(c, rn, h)] == old(tibc)[recentSigner(c, rn, h)])
 //@   ensures pruned:   err == nil && number >=u lenLim ==> !present(tibc[recentSigner(c, hrev, number - lenLim)])
+//@   ensures current:  err == nil ==> (forall rn: u64 :: tibc[recentSigner(c, rn, number)] == old(tibc)[recentSigner(c, rn, number)])
+//@   ensures params:   err == nil ==> newCS.ChainId == chainId0 && newCS.Epoch == epoch0 && newCS.BlockInteval == interval0 && newCS.TrustingPeriod == period0 && str(newCS.ContractAddress) == contract0
 //@   ensures recents.kept: recentsOk(tibc, c, number)
 //@   ensures frame:    forall k: key :: !is_recentSigner(k) && k != pk ==> tibc[k] == old(tibc)[k]
 //@   ensures frame.client: forall k: key :: !inClient(k, c) ==> tibc[k] == old(tibc)[k]
@@ -327,6 +336,7 @@ package types
 //@   loop #1 invariant window:  forall rn: u64, h: u64 :: h >u number - newLimit ==> tibc[recentSigner(c, rn, h)] == old(tibc)[recentSigner(c, rn, h)]
 //@   loop #1 invariant lim:     newLimit == nvals(validators) / 2 + 1
 //@   loop #1 invariant kept:    recentsOk(tibc, c, number)
+//@   loop #1 invariant current: forall rn: u64 :: tibc[recentSigner(c, rn, number)] == old(tibc)[recentSigner(c, rn, number)]
 //@   loop #1 invariant pending: (isEpoch ==> pbdec_obj(ValidatorSet, 0, optstr(tibc[pk])) == parsedVals(str(header.Extra))) && (!isEpoch ==> tibc[pk] == old(tibc)[pk])
 //@   loop #1 invariant frame:   forall k: key :: !is_recentSigner(k) && k != pk ==> tibc[k] == old(tibc)[k]
 //@   loop #1 invariant frame.client: forall k: key :: !inClient(k, c) ==> tibc[k] == old(tibc)[k]
@@ -386,3 +396,4 @@ package types
 //@   ensures inv.gas:      err == nil ==> newCS.Header.GasLimit <=u 0x7fffffffffffffff
 //@   ensures frame:        forall k: key :: !inClient(k, c) ==> tibc[k] == old(tibc)[k]
 //@   ensures nonnil:       err == nil ==> newCS != nil && newCons != nil
+//@   cover accepted:       err == nil
